@@ -63,7 +63,10 @@ def rules(model: Model, tier: str) -> List[RuleResult]:
     _hy = ac.hygiene_rules(model, ac.get_fncls(model, '_MCQuad'), PROP, min_copies=1, min_opt=2, min_conv=2, min_idx=8)
     from ..rules import substitution as _subst
     _sub = _subst.rules(model, PROP, tier)
-    return [R1, R2, R3, R4, R5, R6, R6f, U, S, N, W, B, *_hy, XS, *_sub]
+    from .c07 import _tensor_packer
+    Pk = RuleResult(PROP, "C16-P", "tuple-valued integrands: TensorPacker segments tile the flat vector and pack() returns the slices unchanged (component-wise means)", min_instances=2)
+    _tensor_packer(model, Pk)
+    return [R1, R2, R3, R4, R5, R6, R6f, U, S, N, W, B, *_hy, XS, Pk, *_sub]
 
 
 def _unused_params(model: Model, U: RuleResult):
